@@ -872,7 +872,8 @@ def main():
     with open(os.path.join(out, "Cargo.toml"), "w") as f:
         f.write('[package]\nname = "derive-case"\nversion = "0.4.2"\nedition = "2021"\n'
                 'publish = false\n\n[dependencies]\n'
-                'bpaf = { path = "/repo", features = ["derive"] }\n\n[workspace]\n\n'
+                'bpaf = { path = "%s", features = ["derive"] }\n\n[workspace]\n\n'
+                % (os.environ.get("VP_RUN_REPO") or "/repo") +
                 '[profile.dev]\nopt-level = 0\ndebug = false\noverflow-checks = true\n')
     meta = {"types": n, "vectors": total,
             "structs": sum(1 for t in types if t.kind == "struct"),
